@@ -45,7 +45,7 @@ def run(ctx: Ctx) -> None:
                msg=f"option {f} is read {n} time(s) in parser.py / is not one of the three documented options", node=opts.cls("ParserOptions"), mod=opts, nontrivial=False)
 
     # ---------------------------------------------------------------- R18.1
-    ctx.rule("R18.1", "void-to-empty: one read site, applied to every parameter list, effect only empties the list under the lone-unnamed-void test", minimum=3)
+    ctx.rule("R18.1", "void-to-empty: one read site, applied to every parameter list, effect only empties the list under the lone-unnamed-void test", minimum=1)
     reads = option_reads(pm, "convert_void_to_zero_params")
     ok = len(reads) == 1
     ctx.ob("R18.1", "parser:CxxParser|convert_void_to_zero_params read once", ok, msg=f"the option is consulted at {len(reads)} sites ({[f for f, _ in reads]})", node=reads[0][1] if reads else pm.cls, mod=mod, nontrivial=False)
